@@ -1,8 +1,12 @@
 (* C04  Native helpers never access memory out of bounds.
    Statements only; proofs in proofs/CMemProofs.v, proofs/CMemCalls.v; the memory model
-   gen/CMem.v is regenerated from the C sources of the tree under check on every run. *)
+   gen/CMem.v is regenerated from the C sources of the tree under check on every run; the caller model
+   gen/CCallers.v is regenerated from crypto.py / packet_builder.py / connection.py / packet.py
+   (proofs/CCallersP.v, proofs/CCallersBuilder.v). *)
 From Coq Require Import ZArith List Bool.
 From AQ Require Import model.CMemBase gen.CMem model.CMemSpec proofs.CMemProofs proofs.CMemCalls.
+From AQ Require Import lib.Base gen.C13Consts model.Builder model.CCallBase gen.CCallers model.CCallSpec
+  proofs.CCallersP proofs.BuilderProofs proofs.CCallersBuilder.
 Local Open Scope Z_scope.
 
 (* Every Buffer method sequence with well-typed arguments, from any state satisfying
@@ -67,3 +71,91 @@ Theorem library_calls_safe_or_refuted :
   (if unconditional_HeaderProtection_remove then open_calls_safe else ~ open_calls_safe).
 Proof. exact (conj library_seal_status library_open_status). Qed.
 Print Assumptions library_calls_safe_or_refuted.
+
+(* ===== current tree (length checks of fbe2b66 / f35cfc1 / 4635ed4 in the C code): positive forms ===== *)
+
+(* For ALL argument lengths / offsets, no contract needed: every access of the four entry points is in bounds. *)
+Theorem crypto_safe_all_arguments :
+  aead_encrypt_safe_all /\ aead_decrypt_safe_all /\ hp_apply_safe_all /\ hp_remove_safe_all.
+Proof. exact crypto_safe_all. Qed.
+Print Assumptions crypto_safe_all_arguments.
+
+(* Every call is memory safe; inside the contract it returns (unless OpenSSL reports a failure); outside the contract it
+   is REJECTED with CryptoError by the helper's own guard: the guards are exactly the contracts. *)
+Theorem crypto_self_enforcing : forall pnl0 c, ncall_typed pnl0 c ->
+  ncall_safe c /\ (ncall_in_contract pnl0 c -> ncall_returns pnl0 c) /\ (~ ncall_in_contract pnl0 c -> ncall_rejected pnl0 c).
+Proof. exact crypto_self_enforcing_all. Qed.
+Print Assumptions crypto_self_enforcing.
+
+(* The call sites TRANSLATED from the Python sources produce the argument sizes of the hand-written models. *)
+Theorem callers_as_modelled :
+  (forall mds tell ps hs cl ae ini dg rt rfs,
+     fst (fst (end_packet_site tell ps hs cl ae ini dg rt rfs)) = true ->
+     1200 <= mds -> 0 <= ps -> 3 <= hs ->
+     ps + end_packet_size tell ps hs cl ae ini dg rt rfs + 16 <= mds ->
+     seal_call mds ps (snd (fst (end_packet_site tell ps hs cl ae ini dg rt rfs)))
+                      (snd (fst (end_packet_site tell ps hs cl ae ini dg rt rfs)) + snd (end_packet_site tell ps hs cl ae ini dg rt rfs))) /\
+  (forall data_len t0 t1 rest pl,
+     0 <= t0 -> t0 < t1 -> t1 <= data_len -> 0 <= rest -> data_len <= 65535 ->
+     pull_header_post t0 t1 rest data_len pl ->
+     open_call (fst (receive_datagram_site data_len t0 t1 pl)) (snd (receive_datagram_site data_len t0 t1 pl))).
+Proof. exact callers_as_modelled_all. Qed.
+Print Assumptions callers_as_modelled.
+
+(* Every native call the library makes (translated chains _end_packet -> encrypt_packet, receive_datagram ->
+   decrypt_packet), for ALL values of the quantities the sizes depend on (any max_datagram_size, any datagram): in bounds. *)
+Theorem library_calls_safe :
+  (forall tell ps hs cl ae ini dg rt rfs ret, Forall ncall_safe (snd (seal_chain tell ps hs cl ae ini dg rt rfs ret))) /\
+  (forall data_len t0 t1 pl ret, Forall ncall_safe (open_chain data_len t0 t1 pl ret)).
+Proof. exact library_calls_safe_all. Qed.
+Print Assumptions library_calls_safe.
+
+(* Sealing calls of a packet that fits its datagram, max_datagram_size <= 1500: inside the contracts (never rejected). *)
+Theorem library_seal_calls_meet_contract :
+  forall mds tell ps hs cl ae ini dg rt rfs,
+  fst (fst (end_packet_site tell ps hs cl ae ini dg rt rfs)) = true ->
+  0 <= ps -> end_packet_pnl0 + 1 <= hs -> mds <= 1500 ->
+  ps + end_packet_size tell ps hs cl ae ini dg rt rfs + 16 <= mds ->
+  let plen := snd (end_packet_site tell ps hs cl ae ini dg rt rfs) in
+  Forall (ncall_in_contract end_packet_pnl0) (snd (seal_chain tell ps hs cl ae ini dg rt rfs (plen + 16))).
+Proof. exact seal_chain_in_contract. Qed.
+Print Assumptions library_seal_calls_meet_contract.
+
+(* ... where "fits its datagram" is the Buffer check of C13's builder model: every _end_packet that completes. *)
+Theorem library_seal_calls_meet_contract_builder : forall c s p s',
+  c_mds c <= 1500 -> 0 <= p_start p -> 3 <= p_hdr p ->
+  breach c s p = true -> end_packet c s p = (ODone, s') ->
+  Forall (ncall_in_contract end_packet_pnl0)
+    (snd (seal_chain (b_tell s) (p_start p) (p_hdr p) (c_client c) (p_ackel p) (p_type p =? PT_INITIAL) (b_dgpad s)
+                     (p_type p =? PT_ONE_RTT) (remaining_flight_space s) (snd (bsite c s p) + 16))).
+Proof. exact builder_seal_calls_in_contract. Qed.
+Print Assumptions library_seal_calls_meet_contract_builder.
+
+(* ... in every state the builder reaches from its initial state, for ANY op sequence (API misuse included). *)
+Theorem library_seal_calls_meet_contract_reachable : forall c pn ops p s',
+  wf_cfg c -> c_mds c <= 1500 ->
+  let s := fst (run c (init_st c pn) ops) in
+  b_cur s = Some p -> breach c s p = true -> end_packet c s p = (ODone, s') ->
+  Forall (ncall_in_contract end_packet_pnl0)
+    (snd (seal_chain (b_tell s) (p_start p) (p_hdr p) (c_client c) (p_ackel p) (p_type p =? PT_INITIAL) (b_dgpad s)
+                     (p_type p =? PT_ONE_RTT) (remaining_flight_space s) (snd (bsite c s p) + 16))).
+Proof. exact reachable_seal_calls_in_contract. Qed.
+Print Assumptions library_seal_calls_meet_contract_reachable.
+
+(* C13's builder model and the translation agree on the size handed to encrypt_packet. *)
+Theorem builder_model_seals_translated_size : forall c s p m,
+  breach c s p = true -> c_cmax c = Some m -> p_start p + bsize c s p <= c_mds c ->
+  (fst (end_packet c s p) = OCrypto <-> bsize c s p + 16 > m).
+Proof. exact end_packet_crypto_threshold. Qed.
+Print Assumptions builder_model_seals_translated_size.
+
+(* Each contract is the weakest one: outside it some access of the function body is out of bounds once the guards are ignored. *)
+Theorem contracts_weakest :
+  (forall d a pn parsed i f1 outlen f2 f3 f4 f5, len_ok d -> ~ Kspec_AEAD_encrypt d ->
+     stripped_oob (ev_AEAD_encrypt d a pn parsed i f1 outlen f2 d f3 f4 f5) = true) /\
+  (forall h p parsed pnl0 f1 b80 i, len_ok h -> len_ok p -> 0 <= pnl0 <= 3 -> ~ Kspec_HP_apply h p pnl0 ->
+     stripped_oob (ev_HeaderProtection_apply h p parsed pnl0 f1 b80 i) = true) /\
+  (forall L e parsed f1 b80 q i, len_ok L -> -2147483648 <= e <= 2147483647 -> 0 <= q <= 3 -> ~ Kspec_HP_remove L e ->
+     stripped_oob (ev_HeaderProtection_remove L e parsed f1 b80 q i) = true).
+Proof. exact contracts_weakest_all. Qed.
+Print Assumptions contracts_weakest.
